@@ -146,6 +146,29 @@ func c14Gen(c *Ctx) *c14Scenario {
 			}
 		}
 	}
+	// one case in ten opens with a template that is deleted and created again under its id while tasks still name the
+	// old one, followed by a request on one of those tasks (often a rejected one) and an update of the new template
+	if len(sc.Ops) == 0 && g.Chance(1, 10) {
+		tmplHeavy = true
+		sc.Ops = append(sc.Ops,
+			c14Op{Kind: "createTemplate", ID: "T1", Script: 1 + g.Intn(2)},
+			c14Op{Kind: "createTask", ID: "t1", Template: "T1", DBRP: "db", Status: []string{"enabled", "disabled"}[g.Intn(2)]},
+			c14Op{Kind: "createTask", ID: "t1x", Template: "T1", DBRP: "db", Status: []string{"enabled", "disabled"}[g.Intn(2)]},
+			c14Op{Kind: "deleteTemplate", ID: "T1"},
+			c14Op{Kind: "createTemplate", ID: "T1", Script: 1 + g.Intn(2)},
+		)
+		switch g.Intn(5) {
+		case 0:
+			sc.Ops = append(sc.Ops, c14Op{Kind: "patchTask", ID: "t1", NewID: "t1x"}) // taken
+		case 1:
+			sc.Ops = append(sc.Ops, c14Op{Kind: "createTask", ID: "t1x", Template: "T1", DBRP: "db"}) // exists
+		case 2:
+			sc.Ops = append(sc.Ops, c14Op{Kind: "patchTask", ID: "t1", Status: []string{"enabled", "disabled"}[g.Intn(2)]})
+		case 3:
+			sc.Ops = append(sc.Ops, c14Op{Kind: "patchTask", ID: "t1", NewID: "t3", Vars: "bad"}) // rejected
+		}
+		sc.Ops = append(sc.Ops, c14Op{Kind: "patchTemplate", ID: "T1", Script: 1 + g.Intn(4)})
+	}
 	for i := 0; i < n; i++ {
 		var op c14Op
 		k := g.Intn(12)
@@ -440,14 +463,7 @@ func (m *c14Model) apply(op c14Op) bool {
 			}
 			if t.Template == op.ID && !t.Orphan && t.Enabled && (!c14Valid(ns.Text, t.Vars) || newDBRP == "") {
 				m.TmplAlt[op.ID] = ns.Text
-				// rolling back reloads the tasks that had been updated before the failing one: an enabled task of the
-				// template that was not executing may have been given another (successful) start
-				for _, id2 := range simrt.Keys(m.Tasks) {
-					if t2 := m.Tasks[id2]; t2.Template == op.ID && !t2.Orphan && t2.Enabled && t2.Running == "" {
-						t2.Running = "?"
-						m.Tasks[id2] = t2
-					}
-				}
+				m.rolledBack(op.ID)
 				return false
 			}
 		}
@@ -471,6 +487,24 @@ func (m *c14Model) apply(op c14Op) bool {
 		return true
 	}
 	return true
+}
+
+// rolledBack: a template update that failed part-way.  Rolling back reloads the tasks that had been updated before the
+// failing one, the others are left alone: an enabled task of the template either keeps the pipeline it had or has been
+// given a new start with its (unchanged) definition.  Where the two differ, which of them it is is not determined.
+func (m *c14Model) rolledBack(tmpl string) {
+	for _, id := range simrt.Keys(m.Tasks) {
+		t := m.Tasks[id]
+		if t.Template != tmpl || t.Orphan || !t.Enabled {
+			continue
+		}
+		r := t
+		r.start(m.Poison)
+		if r.Running != t.Running || r.Started != t.Started || r.StartedDB != t.StartedDB {
+			t.Running = "?"
+			m.Tasks[id] = t
+		}
+	}
 }
 
 // restarted: after a restart every enabled task is started again.
@@ -767,7 +801,19 @@ func c14Run(c *Ctx, sc *c14Scenario, cfg simrt.Config, path string, from int, mo
 			}
 			for _, id := range simrt.Keys(life.model.Tasks) {
 				t := life.model.Tasks[id]
-				if t.Running != "?" && exec[id] != (t.Running == "ok") {
+				if t.Running == "?" {
+					// the daemon has settled: what is observed now is the outcome (as far as it says which pipeline runs)
+					switch {
+					case !exec[id]:
+						t.Running = ""
+						life.model.Tasks[id] = t
+					case t.Started == t.Script && t.StartedDB == t.DBRP:
+						t.Running = "ok"
+						life.model.Tasks[id] = t
+					}
+					continue
+				}
+				if exec[id] != (t.Running == "ok") {
 					life.verdict = Fail("executing/out-of-step", "%s task %s is enabled=%v, its last start attempt %s, but the API says executing=%v", when, id, t.Enabled,
 						map[string]string{"": "failed or never happened", "ok": "succeeded"}[t.Running], exec[id])
 					return false
@@ -852,6 +898,7 @@ func c14Run(c *Ctx, sc *c14Scenario, cfg simrt.Config, path string, from int, mo
 					life.model = before
 					if _, ok := before.Templates[op.ID]; ok && op.Kind == "patchTemplate" && !c14TScripts[op.Script].Invalid {
 						before.TmplAlt[op.ID] = c14TScripts[op.Script].Text
+						before.rolledBack(op.ID)
 					}
 				}
 			}
@@ -985,6 +1032,11 @@ func runC14(c *Ctx) Verdict {
 				pre.TmplAlt[inflight.ID] = c14TScripts[inflight.Script].Text
 			}
 		}
+		// the task of the request in flight names a template that was deleted and exists again under that id
+		recreated := false
+		if t, ok := pre.Tasks[inflight.ID]; ok && inflight.Kind == "patchTask" && t.Orphan {
+			_, recreated = pre.Templates[t.Template]
+		}
 		cfg2 := cfg
 		cfg2.Seed = cfg.Seed ^ uint64(b)*0x9E3779B97F4A7C15
 		next := l1.done + 1
@@ -993,7 +1045,7 @@ func runC14(c *Ctx) Verdict {
 		}
 		l2 := c14Run(c, sc, cfg2, l1.copyPath, minInt(next, len(sc.Ops)), pre, post, 0, -1, 0)
 		os.Remove(l1.copyPath)
-		shape := map[string]interface{}{"fault": "crash", "op_in_flight": inflight.Kind, "rename": inflight.Kind == "patchTask" && inflight.NewID != "" && inflight.NewID != inflight.ID}
+		shape := map[string]interface{}{"fault": "crash", "op_in_flight": inflight.Kind, "rename": inflight.Kind == "patchTask" && inflight.NewID != "" && inflight.NewID != inflight.ID, "task_names_recreated_template": recreated}
 		if v, bad := WorldVerdict(l2.res, false); bad {
 			v.Detail = fmt.Sprintf("[second life after a crash at storage boundary %d of %d, during op #%d %+v] ", b, base.bounds, l1.done, inflight) + v.Detail
 			v.Shape = shape
